@@ -24,6 +24,11 @@ func (m *MTProto) sendPacket(request tl.Object, expectedTypes ...reflect.Type) (
 		return nil, errors.Wrap(err, "encoding request message")
 	}
 
+	// must write synchroniously, cuz seqno must be upper each request, and msg_id must grow in the order the
+	// messages are written: the id is generated, the message sent and seqno advanced under one lock
+	m.seqNoMutex.Lock()
+	defer m.seqNoMutex.Unlock()
+
 	var (
 		data  messages.Common
 		msgID = utils.GenerateMessageId()
@@ -54,10 +59,6 @@ func (m *MTProto) sendPacket(request tl.Object, expectedTypes ...reflect.Type) (
 			MsgID: msgID,
 		}
 	}
-
-	// must write synchroniously, cuz seqno must be upper each request
-	m.seqNoMutex.Lock()
-	defer m.seqNoMutex.Unlock()
 
 	err = m.transport.WriteMsg(data, MessageRequireToAck(request))
 	if err != nil {
